@@ -29,6 +29,9 @@ class RequestModel:
         self.methods = {f.rec["name"]: f for k, f in facts.local_fns.items() if f.rec.get("impl_self_adt") == REQ and f.rec.get("impl_trait") is None}
         self.drop = method(facts, T_DROP, REQ, "drop")
         self._inl = {}
+        # what counts as printing a response: any of the Response's printing entry points
+        global RAW_PRINT
+        RAW_PRINT = shared.printer_rx(facts)
 
     def key(self, base, path):
         return tuple(base) + tuple("." + x for x in path)
